@@ -772,6 +772,15 @@ func biasKnobs(prop string, r *rng, k genKnobs) genKnobs {
 		if k.PWild == 0 {
 			k.PWild = 40
 		}
+		if r.chance(50) {
+			// many public types, long restriction lists, relations shared through
+			// computed references: wildcard lists of different lengths meet
+			k.PWild = []int{60, 80, 95}[r.intn(3)]
+			k.NTerm = 4 + r.intn(4)
+			k.MaxDirect = 3 + r.intn(3)
+			k.PComputed = 40
+			k.PUserset = []int{0, 15}[r.intn(2)]
+		}
 		if r.chance(70) {
 			k.PRewriteBack = 0
 			k.Invalid = false
@@ -813,6 +822,9 @@ func wgRunOne(b *BatchResult, prop string, seed, run uint64, p wgParams) {
 			m = fm
 			b.Mix["fixture_seeded_models"]++
 		}
+	} else if (prop == "C11" && r.chance(30)) || (prop == "C06" && r.chance(10)) || (prop == "C04" && r.chance(3)) {
+		m = genWildcardLattice(r)
+		b.Mix["wildcard_lattice_models"]++
 	}
 	wl := &wlWG{Variant: "base", Model: m}
 	c := newWGCtx(wl)
